@@ -2,7 +2,7 @@
 import importlib, json, os, sys, time, traceback
 from .facts import AnalysisBroken, VERIF, REPO
 
-EVID = os.path.join(VERIF, 'evidence')
+EVID = os.environ.get('VERIF_EVID') or os.path.join(VERIF, 'evidence')
 KNOWN = os.path.join(VERIF, 'known_findings.txt')
 
 
